@@ -455,6 +455,12 @@ var decoders = []struct {
 	{"meta.MeteringMode.UnmarshalText", func(b []byte) { var v meta.MeteringMode; _ = v.UnmarshalText(b) }},
 	{"meta.MeteringMode.UnmarshalJSON", func(b []byte) { var v meta.MeteringMode; _ = v.UnmarshalJSON(b) }},
 	{"meta.ExposureMode.UnmarshalText", func(b []byte) { var v meta.ExposureMode; _ = v.UnmarshalText(b) }},
+	{"meta.ExposureTime.UnmarshalText", func(b []byte) {
+		var v meta.ExposureTime
+		if d, ok := any(&v).(encoding.TextUnmarshaler); ok {
+			_ = d.UnmarshalText(b)
+		}
+	}},
 	{"meta.ExposureProgram.UnmarshalText", func(b []byte) { var v meta.ExposureProgram; _ = v.UnmarshalText(b) }},
 	{"meta.UUID.UnmarshalText", func(b []byte) { var v meta.UUID; _ = v.UnmarshalText(b) }},
 	{"meta.UUID.UnmarshalBinary", func(b []byte) { var v meta.UUID; _ = v.UnmarshalBinary(b) }},
@@ -465,6 +471,7 @@ var decoders = []struct {
 			A meta.Aperture
 			F meta.FocalLength
 			E meta.ExposureBias
+			T meta.ExposureTime
 			M meta.MeteringMode
 			X meta.ExposureMode
 			P meta.ExposureProgram
